@@ -44,7 +44,7 @@ CHECKS = {
     "C02": dict(
         engine="E5 source",
         technique="Coq reference evaluator (Src/Eval.v) with machine-checked theorems for every language rule the property names (operand / argument order, short-circuit, binding shares cells, assignment copies payloads, for-in loops, fuel independence) + compiler-correctness theorems for the fragments F1-F3, F5 (catch clauses) and F4 (closures, partial) on value-level VM models; differential: real compiler+VM vs the extracted evaluator on type-directed generated programs; instruction-by-instruction tie of the compiler model with front/emit.c",
-        text="proof (partial): Properties_C02.v (33 theorems over all expressions, environments and stores of the evaluator: eval_fuel_mono ... run_program_deterministic_in_fuel, binop_left_to_right, call_args_right_to_left, eval_args_rtl, and/or_short_circuits, binding_never_copies, assign_copies_payload, fresh_cell_for_arith, and the for-in rules of Src/EvalForIn.v: forin_range_bounds_once, forin_range_values, forin_range_iteration(_down), forin_done_value, forin_body_raises, forin_arr_iterable_once); Properties_C02b.v (8, all proved in full: compile_expr_correct, compile_func_correct_F, compile_program_correct_F1/_F2 on VM/ValueVM.v; compile_expr_correct_frames, compile_program_correct_F3 — whole module image, calls of top-level functions, recursion, self tail calls — and compile_program_correct_F5 — catch clauses — on VM/ValueVM3.v); Properties_C02c.v (15): compile_program_correct_F4 on VM/ValueVM4.v / Src/Compile4.v — whole programs with nested functions and closures (sibling runs, captured cells at any depth, function values bound, passed, stored, returned and called, by-value copies of function objects, tail self calls, catch clauses), PARTIAL: for the fragment prog_in_P 5 p || prog_in_P 6 p and the side conditions stated in that file (level 5 = compile_program_correct_F4_partial: any assignment, no copies; level 6: copies, assignment only to int vars; the levels are not merged — Example exbad shows the merged statement is false of the untyped evaluator) — plus closure_run, sibling_run, the machine-side C08 facts and the simulation cases; Properties_C02d.v (4): compile_program_correct_F7 — level 6 plus one-dimensional int arrays (literals, bounds-checked index reads, element assignment, index_out_of_bounds through the exception table), no side condition beyond the fragment predicate prog_in_P 7. Tied, not proved: the compiler models equal front/emit.c's code (level 2: region of main; levels 3, 5, 4, 7: whole code array, exception table, entry and function addresses) and the value-level VMs equal the real VM (result, prints, exception, peak sp, instruction count) on generated fragment programs. Outside the proved fragments (for-in, arrays, records, non-int data) the evaluator is a model validated by the differential run (3400 quick / 54000 thorough programs over 12 profiles, each also with a small heap), not a theorem about the compiler",
+        text="proof (partial): Properties_C02.v (33 theorems over all expressions, environments and stores of the evaluator: eval_fuel_mono ... run_program_deterministic_in_fuel, binop_left_to_right, call_args_right_to_left, eval_args_rtl, and/or_short_circuits, binding_never_copies, assign_copies_payload, fresh_cell_for_arith, and the for-in rules of Src/EvalForIn.v: forin_range_bounds_once, forin_range_values, forin_range_iteration(_down), forin_done_value, forin_body_raises, forin_arr_iterable_once); Properties_C02b.v (8, all proved in full: compile_expr_correct, compile_func_correct_F, compile_program_correct_F1/_F2 on VM/ValueVM.v; compile_expr_correct_frames, compile_program_correct_F3 — whole module image, calls of top-level functions, recursion, self tail calls — and compile_program_correct_F5 — catch clauses — on VM/ValueVM3.v); Properties_C02c.v (15): compile_program_correct_F4 on VM/ValueVM4.v / Src/Compile4.v — whole programs with nested functions and closures (sibling runs, captured cells at any depth, function values bound, passed, stored, returned and called, by-value copies of function objects, tail self calls, catch clauses), PARTIAL: for the fragment prog_in_P 5 p || prog_in_P 6 p and the side conditions stated in that file (level 5 = compile_program_correct_F4_partial: any assignment, no copies; level 6: copies, assignment only to int vars; the levels are not merged — Example exbad shows the merged statement is false of the untyped evaluator) — plus closure_run, sibling_run, the machine-side C08 facts and the simulation cases; Properties_C02d.v (4): compile_program_correct_F7 — level 6 plus one-dimensional int arrays (literals, bounds-checked index reads, element assignment, index_out_of_bounds through the exception table), no side condition beyond the fragment predicate prog_in_P 7. Properties_C02e.v (4): compile_program_correct_F8 — level 7 plus records with int fields (construction, nil record, field reads with nil_pointer through the exception table, field assignment); prog_in_P 8 requires an int-shaped right operand of ==/!= (the untyped evaluator compares nil references where OP_EQ_INT is stuck). Tied, not proved: the compiler models equal front/emit.c's code (level 2: region of main; levels 3, 5, 4, 7, 8: whole code array, exception table, entry and function addresses) and the value-level VMs equal the real VM (result, prints, exception, peak sp, instruction count) on generated fragment programs. Outside the proved fragments (for-in, arrays, records, non-int data) the evaluator is a model validated by the differential run (3400 quick / 54000 thorough programs over 12 profiles, each also with a small heap), not a theorem about the compiler",
         ref="DESIGN.md §5 C02, §0",
         note=TB + "; constructs outside Src/Syntax.v (strings, floats, long, enums/match, tuples, multi-dimensional arrays, slices, comprehensions, modules) are covered by the other engines' probe families, not by this evaluator; Src/Eval.v has no tail-call elimination (functions with a tail self call get no catch clauses in the generator); the stacks of the value-level VMs are unbounded, a bound in terms of call depth is not proved (peaks are compared in the tie)"),
     "C03": dict(
